@@ -94,10 +94,11 @@ claim('C09', 'Lean 4 theorems on the JournalReader iteration/serialisation model
       "DESIGN.md §6 C09")
 
 claim('C18', 'Lean 4 theorems on a protocol model of temporary files whose order of operations is regenerated from the source; scenario correspondence and TMPDIR oracle on the binary with H3 sleeps and SIGINT',
-      "Machine-checked, with createUnderLock / dropBeforeSummary read from the source on every run: a normal run leaves no temporary file although main never joins the workers; "
-      "after SIGINT at any moment no file remains provided no worker creates its file after the handler ran; the unrestricted statement is false (late creation, a start-up "
-      "microsecond window) and the two defects repaired by this work (commits 1f118f4b, d9c77f45) are kept as counter-models that a regression would re-enable. Tie: the real "
-      "binary runs with sleeps that widen exactly those windows (after the final summary; between creating and listing) and with SIGINT at planned offsets over compressed "
+      "Machine-checked, with createUnderLock / dropBeforeSummary / createRefusedAfterHandler read from the source on every run: a normal run leaves no temporary file although main never joins the workers; "
+      "after SIGINT at ANY moment - the handler running at any point, the process exiting at any point after it - no file remains (C18_full_holds, no proviso: a worker that reaches "
+      "decompress_to_ntf after the handler ran is refused under the NAMED_TEMP_FILES lock). The three defects repaired by this work (commits 1f118f4b, d9c77f45, 7f116600) are kept as "
+      "counter-models that a regression would re-enable (summary_before_drop, gap_without_lock, late_create_without_flag). Tie: the real binary runs with sleeps that widen exactly those "
+      "windows (after the final summary; between creating and listing; before taking the lock with the main thread lingering after EXIT_EARLY) and with SIGINT at planned offsets over compressed "
       "journal/evtx sources in a private TMPDIR; leftovers must equal the model's prediction and be zero. Promptness is measured: known finding F15.",
       TB + "Runtime behaviour the model cannot exhibit: OS signal delivery, process exit, tempfile/ctrlc internals; which worker step coincides with the signal is arranged by sleeps.",
       "DESIGN.md §6 C18")
